@@ -23,6 +23,7 @@ use crossbeam_channel as cbc;
 use libfs::{
     allocate_file, copy_file_bytes, is_same_file, copy_owner, copy_permissions, copy_timestamps, next_sparse_segments, probably_sparse, reflink, sync, FileType
 };
+use libfs::is_dir_checked;
 use log::{debug, error, info, warn};
 use walkdir::WalkDir;
 
@@ -184,7 +185,7 @@ pub fn tree_walker(
             .next_back()
             .ok_or(XcpError::InvalidSource("Failed to find source directory name."))?;
 
-        let target_base = if dest.exists() && dest.is_dir() && !config.no_target_directory {
+        let target_base = if is_dir_checked(dest)? && !config.no_target_directory {
             dest.join(sourcedir)
         } else {
             dest.to_path_buf()
